@@ -16,5 +16,6 @@ Spec == Init /\ [][Next]_<<t, n>>
 MachineIsDefinition ==
   ~(n >= 1 /\ n < Len(t) /\ t[n] = CR /\ t[n + 1] = LF) =>
      (After(t, n).row = RowOf(t, n) /\ After(t, n).col = ColOf(t, n))
+RunMachineIsMachine == LenR(Compress(t)) = Len(t) /\ AfterR(Compress(t), n) = After(t, n)
 RowsMonotone == n >= 1 => After(t, n).row >= After(t, n - 1).row
 =============================================================================
